@@ -443,7 +443,7 @@ def plan_for(prop, tier, seed, replay_file=None):
                 # equal numbers / booleans / nulls under different explicit ids
                 gen_job('find_p22', 'remove', 22, depth=1, style=(seed + 3) % 5, reads=['finddata'], MaxAnns=10, MaxRes=3, MaxData=12, MaxSets=2, MaxKeys=4),
                 gen_job('kdm_find_p19', 'remove', 19, depth=2, style=(seed + 2) % 5, reads=['finddata'], **big),
-                gen_job('loose_w1', 'core', 1, depth=2, size='w', style=(seed + 3) % 5, sample_mod=8 if tier == 'quick' else 1, **big),
+                gen_job('loose_w1', 'core', 1, depth=2, size='w', style=(seed + 3) % 5, sample_mod=8 if tier == 'quick' else 3, **big),
                 gen_job('find_w1', 'core', 1, depth=1, size='w', style=(seed + 4) % 5, reads=['finddata'], **big),
                 gen_job('find_v1', 'core', 1, depth=1 if tier == 'quick' else 2, size='v', style=(seed + 2) % 5, reads=['finddata'], **big)]
         return dict(jobs=store_jobs(prop, tier, seed) + find, rule=STORE_RULE, assumptions=STORE_ASSUMPTIONS)
